@@ -108,6 +108,88 @@ def extra_metrics_probe(tier, seed):
     return dict(violations=viol, coverage=dict(metrics_scenarios=len(out), metrics_sample=out[:2]))
 
 
+BASE_PREFIXES = ("id=", "up=", "alive=", "join=", "jk=", "jph=", "jerr=", "jst=", "e:", "r=", "d:")
+
+
+def base_view(obs_path):
+    """the feature-independent part of an observation file, as text"""
+    out = []
+    for line in open(obs_path):
+        w = line.split()
+        if not w or w[0] in ("Q", "G", "DC"):
+            continue
+        if w[0] in ("R", "E"):
+            out.append(w[0])
+            continue
+        out.append(w[0] + " " + " ".join(t for t in w[1:] if t.startswith(BASE_PREFIXES)))
+    return out
+
+
+def extra_features(tier, seed):
+    """C18: the same seeded scripts on harness builds with different rsactor feature sets."""
+    import gen as _gen
+    import shutil as _sh
+    import itertools as _it
+    feats_all = ("dd", "metrics", "testutils", "tracing")
+    if tier == "quick":
+        sets = [feats_all] + [(f,) for f in feats_all]
+        n = 40
+    else:
+        sets = [c for k in range(1, 5) for c in _it.combinations(feats_all, k)]
+        n = 150
+    d = os.path.join(vlib.CACHE, "feat", tier)
+    _sh.rmtree(d, ignore_errors=True)
+    os.makedirs(d)
+    fams = ("core", "time", "fault", "multi")
+    viol, known, compared, skipped_cycles = [], [], 0, 0
+    # the reference run: no features
+    def write_set(fs):
+        files = []
+        for fam in fams:
+            for i in range(n):
+                lines, _ = _gen.gen_script(seed * 9001 + i * 17 + len(fam), fam, feats=fs)
+                p = os.path.join(d, "%s_%s_%03d.scn" % (vlib.featset_name(fs), fam, i))
+                open(p, "w").write("\n".join(lines) + "\n")
+                files.append(p)
+        known_w = os.path.join(vlib.VERIF, "corpus", "known", "C15_stale_edge.scn")
+        lines = open(known_w).read().splitlines()
+        lines[0] = _gen.feat_line(fs)
+        p = os.path.join(d, "%s_known_000.scn" % vlib.featset_name(fs))
+        open(p, "w").write("\n".join(lines) + "\n")
+        files.append(p)
+        return files
+    ref = write_set(())
+    vlib.run_director(vlib.build_harness(())["director"], ref)
+    for fs in sets:
+        files = write_set(fs)
+        vlib.run_director(vlib.build_harness(fs)["director"], files)
+        res = vlib.accept_many(files, "C18")
+        for f0, f1, (ok, st, out) in zip(ref, files, res):
+            b0, b1 = base_view(f0 + ".obs"), base_view(f1 + ".obs")
+            lines = open(f1).read().splitlines()
+            if b0 != b1:
+                # a difference is legitimate only if the program contains an ask cycle
+                run0 = monitors.Run(open(f0).read().splitlines(), vlib.parse_obs(f0 + ".obs"))
+                run1 = monitors.Run(lines, vlib.parse_obs(f1 + ".obs"))
+                if "dd" in fs and monitors.m_C14(run0):
+                    skipped_cycles += 1
+                    continue
+                c15 = monitors.m_C15(run1) if "dd" in fs else []
+                if c15 and monitors.classify_stale(None, c15):
+                    known.append("stale-edge-after-reply")
+                    continue
+                diff = [(x, y) for x, y in zip(b0, b1) if x != y][:4]
+                viol.append(dict(what="behaviour differs with features %s" % (list(fs),), script=lines, first_differences=diff))
+            else:
+                compared += 1
+            if ok is False and b0 == b1:
+                viol.append(dict(what="run with features %s not accepted by the model" % (list(fs),), script=lines,
+                                 detail=out[-1500:], suffix=" no-failing-input-found"))
+    return dict(violations=viol[:5], known_classes=sorted(set(known)),
+                coverage=dict(feature_sets=[list(x) for x in sets], feature_pairs_identical=compared,
+                              scripts_with_real_cycles_skipped=skipped_cycles))
+
+
 def extra_erased(tier, seed):
     """C16: the same scripts run direct and with every operation routed through trait objects."""
     import hashlib as _h
@@ -229,6 +311,12 @@ PROPS = {
         projection="C16", monitors=["C04", "C05", "C11"],
         extra=[extra_erased],
         level_text="Translation + proof + correspondence: the table of forwarders and conversions is regenerated from the source on every run and proved verbatim / complete in Coq (Props/C16.v); the same director scripts are run direct and with every operation routed through TellHandler / AskHandler / ActorControl and their weak variants (built via From, Box::new, clone_boxed, downgrade, upgrade, as_control, as_weak_control): observations must be identical and accepted by the model.",
+    ),
+    "C18": dict(
+        props_file="Props/C18.v",
+        families=[("core", ("dd", "metrics", "testutils", "tracing"), 60)],
+        projection="C18", monitors=["C04", "C05"],
+        extra=[extra_features],
     ),
     "C19": dict(
         props_file="Props/C19.v",
